@@ -9,6 +9,7 @@ package smf
 // about the stream only, never about the schedule of Read results (C09).
 
 //@ macro strm(x) = x != nil && 0 <= x.spos && x.spos <= x.sn
+//@ macro trkWf(r) = forall i int :: 0 <= i && i < len(r.SMF.Tracks) ==> wfTrack(r.SMF.Tracks[i])
 
 // ---------------------------------------------------------------- chunk header
 //@ func (*chunk).Type
@@ -256,6 +257,7 @@ package smf
 //@ ensures [H] err == nil ==> r.error == nil
 //@ ensures [P:C05] err == nil ==> (r.headerIsRead && r.processedTracks >= 0 && r.processedTracks < int32(r.SMF.numTracks) && len(r.SMF.Tracks) == nt(r))
 //@ ensures [P:C05] err == nil ==> (0 <= pt(r) && pt(r) < len(r.SMF.Tracks))
+//@ ensures [P:C02] r.processedTracks == old(r.processedTracks) || (old(r.expectChunk) && !old(r.isDone) && r.processedTracks == old(r.processedTracks) + 1)
 //@ ensures [P:C05] err == nil ==> r.input.spos > old(r.input.spos)
 // a chunk header is due after a successful read only if that read delivered the end of a track (alien chunks
 // between the tracks are skipped, SMF 1.0: "programs should ignore chunk types they do not know")
@@ -273,6 +275,7 @@ package smf
 //@ loop 0 invariant old(r.input.spos) <= r.input.spos && r.input.spos <= r.input.sn && (r.input.sfault == nil ==> old(r.input.sfault) == nil)
 //@ loop 0 invariant errOK(r)
 //@ loop 0 invariant rrs(r) == old(rrs(r)) && r.isDone == old(r.isDone)
+//@ loop 0 invariant (r.expectChunk ==> r.processedTracks == old(r.processedTracks)) && (r.processedTracks == old(r.processedTracks) || (old(r.expectChunk) && !old(r.isDone) && r.processedTracks == old(r.processedTracks) + 1))
 //@ loop 0 invariant !old(r.expectChunk) ==> (!r.expectChunk && r.error == old(r.error) && r.input.spos == old(r.input.spos) && r.input.sfault == old(r.input.sfault))
 //@ loop 0 decreases (r.error == nil ? 1 : 0) + r.input.sn - r.input.spos
 
@@ -286,6 +289,7 @@ package smf
 //@ ensures [H] old(r.headerIsRead) ==> hdrSame(r)
 //@ ensures [H] err == nil ==> r.error == nil
 //@ ensures [P:C05] err == nil ==> (r.headerIsRead && r.processedTracks >= 0 && r.processedTracks < int32(r.SMF.numTracks) && len(r.SMF.Tracks) == nt(r))
+//@ ensures [P:C02] r.processedTracks == old(r.processedTracks) || (old(r.expectChunk) && !old(r.isDone) && r.processedTracks == old(r.processedTracks) + 1)
 //@ ensures [P:C05] err == nil ==> (0 <= pt(r) && pt(r) < len(r.SMF.Tracks))
 //@ ensures [P:C05] err == nil ==> r.input.spos > old(r.input.spos)
 //@ ensures [P:C02] err == nil && r.expectChunk ==> (len(m) >= 2 && m[0] == 0xFF && m[1] == 0x2F)
@@ -343,7 +347,10 @@ package smf
 // nothing is invented: the empty message that _readEvent hands out when the last data byte of a channel message is
 // missing never survives into a file that is returned (the next read fails with ErrUnexpectedEOF)
 //@ ensures [P:C05] (old(forall i int :: 0 <= i && i < len(r.SMF.Tracks) ==> nonEmptyT(r.SMF.Tracks[i])) && (err == io.EOF || err == ErrFinished)) ==> forall i int :: 0 <= i && i < len(r.SMF.Tracks) ==> nonEmptyT(r.SMF.Tracks[i])
+// an end-of-track only ever is the last event of its track
+//@ ensures [P:C02] old(trkWf(r)) ==> trkWf(r)
 //@ ensures [H] old(r.input.spos) <= r.input.spos && r.input.spos <= r.input.sn
+//@ loop 0 invariant old(trkWf(r)) ==> trkWf(r)
 //@ loop 0 invariant rdInv(r) && r.headerIsRead && r.SMF == old(r.SMF) && r.input == old(r.input) && r.runningStatus == old(r.runningStatus)
 //@ loop 0 invariant trkInv(r)
 //@ loop 0 invariant errOK(r) && r.error == nil
